@@ -517,8 +517,11 @@ Varable failures: {var_failed}
         # If subsetting replaces ('ROW', 'COL') ... for example with ('PERIM',)
         # remove the dimensions
         if deleterowcol:
-            del outf.dimensions['COL']
-            del outf.dimensions['ROW']
+            # (coordinate variables such as x(COL) and y(ROW) keep them)
+            for dk in ('COL', 'ROW'):
+                if not any(dk in v.dimensions
+                           for v in outf.variables.values()):
+                    del outf.dimensions[dk]
         else:
             # Update origins
             if 'COL' in kwds and 'COL' in outf.dimensions:
